@@ -220,7 +220,10 @@ TEXT_FIELDS = ["report.title", "info.value", "node.tag", "property.value", "link
 ATTR_FIELDS = ["info.name", "property.key", "link.name", "node.name", "node.description", "result.status",
                "result.status_details", "step.description", "log.level", "check.description", "attachment.description",
                "url.description"]
-TRUTHY_ATTRS = ["link.name", "result.status", "result.status_details"]      # written under `if x:`
+# fields in which "" does not survive the XML backend: check.details (None and "" are the same empty element) and result.status
+# (written under `if result.status:`).  Since fix F04 the other text fields are restored by `text or ""` and
+# status_details / link name are written under `is not None`.
+EMPTY_LOST = ["check.details", "result.status"]
 ALL_FIELDS = TEXT_FIELDS + ATTR_FIELDS
 
 
@@ -299,7 +302,7 @@ def xml_causes(desc):
         elif any(not is_xml_char(ch) for ch in v):
             bad.append(("nonxmlchar", kind, c, k))
         else:
-            if v == "" and (kind in TEXT_FIELDS or kind in TRUTHY_ATTRS):
+            if v == "" and kind in EMPTY_LOST:
                 chg.append(("empty", kind, c, k))
             if "\r" in v and kind in TEXT_FIELDS:
                 chg.append(("cr", kind, c, k))
@@ -372,7 +375,7 @@ def witness_for(kind, cls, which=0):
 
 def finding_table():
     rows = []
-    for f in TEXT_FIELDS + TRUTHY_ATTRS:
+    for f in EMPTY_LOST:
         rows.append(("empty", f))
     for f in TEXT_FIELDS:
         rows.append(("cr", f))
@@ -390,7 +393,11 @@ def backend_of(cls):
 
 
 def write_known_findings(path):
-    out = {"findings": [], "fixed": []}
+    out = {"findings": [], "fixed": [
+        {"property": "C09", "signature": "xml:empty:%s" % f, "fix": "fixes/F04-xml-empty-text.patch",
+         "what": 'XML backend: "" in %s was loaded back as None' % f}
+        for f in ["report.title", "info.value", "node.tag", "property.value", "link.url", "log.message", "attachment.filename",
+                  "url.url", "link.name", "result.status_details"]]}
     for cls, f in finding_table():
         out["findings"].append({"property": "C09", "signature": "%s:%s:%s" % (backend_of(cls), cls, f), "what": WHAT[cls] % f,
                                 "witness": {"backend": backend_of(cls), "field": f, "class": cls, "string": enc_desc(CLASS_SAMPLE[cls]),
@@ -636,18 +643,8 @@ def props_witnesses():
                 sdet="(Some sa)", msg=sa, fname=sa, url=sa, cdet="(Some sa)", start="(Some 2%Z)")
     order = ["title", "info_v", "tag", "prop_v", "link_url", "link_name", "status", "sdet", "msg", "fname", "url", "cdet", "start"]
     table = [
-        ("C09_xml_refuted_empty_log_message", {"msg": "[]"}, ("log.message", ""), "NotNormalForm"),
-        ("C09_xml_refuted_empty_attachment_filename", {"fname": "[]"}, ("attachment.filename", ""), "NotNormalForm"),
-        ("C09_xml_refuted_empty_url", {"url": "[]"}, ("url.url", ""), "NotNormalForm"),
-        ("C09_xml_refuted_empty_title", {"title": "[]"}, ("report.title", ""), "NotNormalForm"),
-        ("C09_xml_refuted_empty_info_value", {"info_v": "[]"}, ("info.value", ""), "NotNormalForm"),
-        ("C09_xml_refuted_empty_tag", {"tag": "[]"}, ("node.tag", ""), "NotNormalForm"),
-        ("C09_xml_refuted_empty_property_value", {"prop_v": "[]"}, ("property.value", ""), "NotNormalForm"),
-        ("C09_xml_refuted_empty_link_url", {"link_url": "[]"}, ("link.url", ""), "NotNormalForm"),
         ("C09_xml_refuted_empty_check_details", {"cdet": "(Some [])"}, ("check.details", ""), "differs"),
-        ("C09_xml_refuted_empty_link_name", {"link_name": "(Some [])"}, ("link.name", ""), "differs"),
         ("C09_xml_refuted_empty_status", {"status": "(Some [])"}, ("result.status", ""), "differs"),
-        ("C09_xml_refuted_empty_status_details", {"sdet": "(Some [])"}, ("result.status_details", ""), "differs"),
         ("C09_xml_refuted_cr", {"msg": "[97; 13; 98]%N"}, ("log.message", "a\rb"), "differs"),
         ("C09_xml_refuted_control_char", {"sdet": "(Some [1%N])"}, ("result.status_details", "\x01"), "ReportLoadingError"),
         ("C09_xml_refuted_lone_surrogate", {"msg": "[55296%N]"}, ("log.message", "\ud800"), "UnicodeEncodeError"),
